@@ -10,3 +10,4 @@ open Cst.C06
 #print axioms after_teardown_quiet
 #print axioms loser_never_tears_down
 #print axioms comp_one_is_unsound
+#print axioms ordering_facts
